@@ -1,13 +1,28 @@
 /-
 Bridge lemmas for C06 (iii): the structural reading of `cli/cli.go awaitPandoraTermination` regenerated
-into `Pandora.Gen.Cli` says that the code is the variant of the shutdown model the theorem is about:
-after a signal the `errs` branch waits for `pandora.Wait()` before `log.Fatal`.
-On a tree where that branch exits at once `signalErrsBranchWaits` is `false` and `cli_waits` fails.
+into `Pandora.Gen.Cli` says that the code is a configuration of the shutdown model the theorems are about:
+* after a signal the `errs` branch waits for `pandora.Wait()` before `log.Fatal`;
+* SIGINT (2) and SIGTERM (15) are both passed to `signal.Notify` — a signal that is not keeps its default action
+  and kills the process without any flush;
+* the `switch sig` has a case for each of them and each calls `gracefulShutdown()`.
+On a tree where one of these is not so, `codeCfg` is another configuration and `cli_good` fails.
 -/
 import Pandora.Gen.Cli
 import Pandora.Proofs.C06Cli
 
 namespace Pandora.Bridge.Cli
+open Pandora.Model.CliShutdown
+
+/-- the signal numbers of this platform (Linux): SIGINT = 2, SIGTERM = 15 -/
+def signo : Sig → Nat
+  | .int => 2
+  | .term => 15
+
+/-- the configuration of the shutdown model that the regenerated facts describe -/
+def codeCfg : Cfg where
+  waitOnErrs := Gen.Cli.signalErrsBranchWaits
+  notified s := Gen.Cli.notifiedSignals.contains (signo s)
+  cancels s := Gen.Cli.signalCases.any fun c => c.1 == signo s && c.2.1
 
 /-- after SIGINT/SIGTERM the engine's tasks are awaited before the process exits -/
 theorem cli_waits : Gen.Cli.signalErrsBranchWaits = true := by decide
@@ -17,5 +32,13 @@ theorem cli_cancels : Gen.Cli.signalBranchCancels = true ∧ Gen.Cli.errsFirstBr
 
 /-- the nested select still has its three cases -/
 theorem cli_select_cases : Gen.Cli.signalSelectCases.length = 3 := by decide
+
+/-- both signals are notified -/
+theorem cli_notified : ∀ s, codeCfg.notified s = true := by
+  intro s; cases s <;> decide
+
+/-- the code is a good configuration: waits, notifies both signals, cancels on both -/
+theorem cli_good : Pandora.Proofs.C06Cli.Good codeCfg :=
+  ⟨cli_waits, cli_notified, by intro s; cases s <;> decide⟩
 
 end Pandora.Bridge.Cli
